@@ -85,7 +85,7 @@ PROPS = {
             {"mode": "asan", "scale": 0.1},
         ],
         "rule": "an evaluation is one ordered pair (with all triples over its group) of names in 5 representations (flat Vec, Bytes, slice, hand-compressed inside a "
-                "message, chain of parts), relative/uncertain names, labels, character strings, record data of every type (value groups built from near-neighbours: "
+                "message, chain of parts), relative/uncertain names, labels, character strings, record data of every type (what the library composes as canonical form must be the reference's canonical form; value groups built from near-neighbours: "
                 "case flips, +-1, label-boundary shifts) or whole records (TTL-only, owner-case-only, class, type, data variations), checked against the laws "
                 "reflexive/symmetric/eq=>hash/eq<=>cmp Equal/antisymmetric/transitive/representation-independent, the reference RFC 4034 6.1 comparator, and octet "
                 "order of reference-composed canonical RDATA; distinct = (kind, type, eq, cmp, canonical cmp, owner/type/ttl sameness) tuples observed",
@@ -118,12 +118,13 @@ PROPS = {
             {"mode": "asan", "scale": 0.08, "cpu_budget": 120},
             {"mode": "miri", "scale": 0.0006, "shards": 16, "tiers": ["thorough"], "timeout_thorough": 3000},
         ],
-        "rule": "an evaluation is one octet string taken twice through read_all (every header accessor, question/record/section/message iterator, typed "
+        "rule": "an evaluation is one octet string made a message by any of the three constructors (which must agree) and taken twice through read_all (every header accessor, question/record/section/message iterator, typed "
                 "parsing into AllRecordData and four concrete types, OPT options, canonical_name, is_answer, contains_answer, get_last_additional, copy_records, "
                 "dig-style and zone-style display, ParsedName/ParsedRecord/Label::iter_slice at raw offsets, the XFR response interpreter and the TSIG server "
                 "entry incl. its error-response builder), once in fixed and once in seeded block order, under panic capture, a CPU-time watchdog and logical "
                 "iterator caps, with transcript equality, closure checks on every returned name/record (every displayed text must be UTF-8) and a differential against the reference walker; inputs "
-                "are valid generated messages, 16 structure-aware mutation kinds, exhaustive pointer-target/boundary-octet/truncation families on small "
+                "are valid generated messages, 16 structure-aware mutation kinds, record data of every length from 0 to 13 octets for every type read structurally, well-formed records whose type bitmap ends the message, "
+                "exhaustive pointer-target/boundary-octet/truncation families on small "
                 "messages, random octets and a hand-made corpus; distinct = (mutation kind, #records accepted/rejected, #compressed names, record types seen, transcript size) tuples",
         "assumptions": ["a panic documented as a caller contract violation is never provoked (only read-side calls on whatever the parser returned)",
                         "the reference walker and the library may differ in what they accept; only 'both accept => same content' is asserted",
@@ -220,7 +221,7 @@ PROPS = {
                 "abandon; or (b) one query/walk pass of a reader thread in a real-thread stress run (3-4 reader threads, 2 competing writer tasks on a "
                 "multi-thread runtime, each committed version stamps every record with its version number, abandoned versions use a disjoint stamp range, "
                 "seeded yields/sleeps at the six pause hooks): all stamps a reader sees must be one version v with finished_before <= v <= started_after, "
-                "walk == queries (TXT, ANY and a type the name lacks), held readers keep their version, writers-inside never exceeds 1, and no stall: 20 s without a read, commit or abandon while the process uses no CPU time is a deadlock; the same stress runs under ThreadSanitizer and (thorough) "
+                "walk == queries (TXT, ANY and a type the name lacks), the SOA in the authority section of a negative answer is the SOA of the reader's version, held readers keep their version, writers-inside never exceeds 1, and no stall: 20 s without a read, commit or abandon while the process uses no CPU time is a deadlock; one writer whose node interface is used from three threads at once (every thread creating the same new names at the same moment, an RRset of a type of its own each): all of it is there after the commit, and no stall; the same stress runs under ThreadSanitizer and (thorough) "
                 "Miri; distinct = order of acquire/open/commit/abandon events of a history resp. (v-finished_before, started_after-v, writer-open) classes",
         "assumptions": ["a reader may observe any version that was current at some instant between the call and return of read()",
                         "only the data a reader sees is judged here (which rcode a name without data gets is C08's business)"],
@@ -263,7 +264,7 @@ PROPS = {
                 "fed through Message::is_answer + XfrResponseInterpreter + ZoneUpdater into a receiving zone (empty, old version, unrelated content); (c) one "
                 "re-packaging of the canonical AXFR / IXFR / AXFR-in-reply-to-IXFR record sequence (all-in-one, one RR per message, random splits, question "
                 "repeated or not, compressed or not); (d) one fault on such a stream (drop/duplicate/reorder/truncate message, QR/opcode/rcode/TC/counts, "
-                "wrong question name/type/class, missing question, missing/mismatched first or final SOA, missing inner IXFR SOA, record outside the zone); (e) one transfer served from a zone that moves on while the "
+                "wrong question name/type/class, missing question, missing/mismatched first or final SOA, missing inner IXFR SOA, record outside the zone); a transfer fetched behind one that was given up half-way on the same connection; (e) one transfer served from a zone that moves on while the "
                 "transfer is prepared: a store layered over the in-memory one commits the next version just in front of the sender's first, second, third or fourth read(), and what is "
                 "sent must be one published version, SOA and records alike. "
                 "The receiving zone's walk() is sampled after every applied update: every content readers see must be the previous version or a complete "
@@ -293,7 +294,7 @@ PROPS = {
                 "truncated within / to / below the limits, extended, class, TTL). Oracle: an independent RFC 8945 signer/verifier over raw octets (own parser, own "
                 "digest construction; only the HMAC primitive is ring's, and that is recomputed offline with Python hmac/hashlib for every logged MAC): the "
                 "library accepts iff the reference does, MACs are equal octet for octet, the error class is the RFC's for structural edits, verified messages "
-                "equal the pre-signing octets, no panic (the error response is built for every server-side error); the client-side transport wrapper net::client::tsig::Connection against the reference acting as a server "
+                "equal the pre-signing octets, no panic (the error response is built for every server-side error); the client-side transport wrapper net::client::tsig::Connection against the reference acting as a server, one request or two in flight at once "
                 "(the request as it leaves the wrapper verifies by the reference; an honestly signed answer reaches the caller as made, one with a flipped "
                 "bit, another secret, a time outside the window, no TSIG, or a MAC computed without the request MAC is refused); the server-side middleware net::server::middleware::tsig::TsigMiddlewareSvc over a key store of 1-3 keys in front of a service, the reference acting as "
                 "the client (an authentic request reaches the service once, as it was before signing and with its key as metadata; every response - one, a sequence announced "
@@ -346,7 +347,7 @@ PROPS = {
                 "zone, into a wildcard, into another secure zone and into an insecure zone, DS and DNSKEY queries); (a) the untouched answer must validate as "
                 "Secure (secure chain), Insecure (insecure delegation, unsupported algorithm, chain through an insecure zone), never Bogus; (b) the answer "
                 "damaged by one of 11 faults (RRSIG dropped, signature bit, RDATA bit, wrong signer, expired / not yet valid re-signature, one or all denial "
-                "records dropped, SOA dropped, unsigned extra RRset, all DNSSEC records stripped) must not be Secure; (c) the untouched answer with the upstream "
+                "records dropped, the denial records dropped while their signatures stay, SOA dropped, unsigned extra RRset, all DNSSEC records stripped) must not be Secure; (c) the untouched answer with the upstream "
                 "lying about one DS or DNSKEY RRset on the chain (11 faults incl. SERVFAIL, empty answer, timeout, truncated message) must be neither Secure nor "
                 "Insecure; (d) the answer, or the upstream's DS/DNSKEY answer, carrying content only the zone's own operator could have signed (17 kinds: NSEC3 "
                 "owners that are not Base32hex / too long / not UTF-8 / too short, wrong hash lengths, 65535 iterations, unknown hash algorithm, broken bitmaps, "
@@ -381,7 +382,7 @@ PROPS = {
                 "succeed; on the plain stream transport (real time, delays a tenth as long) also a silent peer under a trickle of requests, and a connection "
                 "that is used again after it fell idle: a few requests answered, a pause inside the idle timeout, then one request the peer never answers, "
                 "which has to fail within the response timeout; an honest peer that answers all requests with one write and closes; one connection "
-                "carrying 66000 requests a few at a time; a multiplexed stream transport with requests in flight whose second connect takes 20-40 s (a request that fails on its own, being too long for a stream, asks for it): "
+                "carrying 66000 requests a few at a time; the load balancer and the redundant transport asked without any upstream; the datagram transport with every configuration value at the ends of its range; a multiplexed stream transport with requests in flight whose second connect takes 20-40 s (a request that fails on its own, being too long for a stream, asks for it): "
                 "the requests on the first connection complete with their answers in time; and a real-thread family (multi-thread runtime, real time, honest peer, 20-80 concurrent "
                 "requests per case over each transport; all there is to the ThreadSanitizer stage). Oracle over the caller's result joined with the peer's log of (wire ID, query name): an Ok message has QR set, an ID that was used for "
                 "this very request, and this request's question (or, without question, an error rcode and empty sections); every request completes, and within "
@@ -414,7 +415,7 @@ PROPS = {
                 "panics; a third of the cases add a requester that reads slowly through a pipe of 128-4096 octets (waits 3.5-20 s, longer than the idle timeout "
                 "of 3 s, shorter than the response write timeout) and must still get every frame whole. Connection churn: a server allowing 2-4 concurrent "
                 "connections sees 5-14 connections one after the other (served and closed, aborted mid-request, hostile octets, a handshake whose accept "
-                "future fails, left to its idle timeout, closed without a word); each connection that sends a request, and a probe at the end, must be "
+                "future fails or - once per case - never completes, left to its idle timeout, closed without a word); each connection that sends a request, and a probe at the end, must be "
                 "answered (no ending may keep its place in the connection count). Real threads: 6-16 transactions of 300-1200 messages each pipelined on one "
                 "connection of a server on a multi-thread runtime (4-12 workers) with a requester that drains a small pipe: every message of every "
                 "transaction exactly once and in order (also the whole of the ThreadSanitizer stage). UDP sockets report readiness with nothing to "
@@ -434,7 +435,7 @@ PROPS = {
         "rule": "an evaluation is one query answered by net::client::cache::Connection over a mock upstream (SendRequest) under the paused tokio clock; a case "
                 "is a history of 8-60 queries over 4 names x {A, TXT} with every combination of RD/CD/AD/DO and occasional upper-case spelling, the clock "
                 "moved between queries (and, for a fifth of them, between making the request object and asking it for its response) by 0, fractions of a second, amounts around 1/2/5/30/60/75/90/100/300 s, or up to an hour; each name answers in one way "
-                "(positive with NS/glue and, under DO, RRSIGs; NODATA and NXDOMAIN with SOA and, under DO, NSEC/NSEC3/RRSIG; delegation; SERVFAIL/REFUSED; "
+                "(positive with NS/glue and, under DO, RRSIGs; NODATA and NXDOMAIN with SOA and, under DO, NSEC/NSEC3/RRSIG; delegation; SERVFAIL/REFUSED and errors whose code needs the upper bits in the OPT record; "
                 "truncated; transport failure; empty NOERROR; an alias: CNAME plus the target's data, CNAME plus SOA as NODATA, CNAME plus SOA as NXDOMAIN) with TTLs from {0,1,2,5,30,59,60,61,300,...}; every upstream response carries a unique "
                 "marker, so a response served without asking upstream names the response it was made from; a real-thread family (multi-thread runtime, six "
                 "tasks querying one cache at once, judged by the markers alone) is also all there is to the ThreadSanitizer stage; a sixth of the requests are made from a message that already carries an OPT record and call no EDNS setter, and half of the upstreams read requests the way the stream "
